@@ -106,7 +106,7 @@ fn check_definite(d: &MDesc, lib: &glue::Desc, rep: &mut Report) -> Result<(), F
 
 /// Turn a definite xpub key text into a template: maybe multipath in the chain step, maybe
 /// wildcard in the last step.  Returns the template.
-fn templatize(k: &str, wild: u8, multi: usize, src: &mut Src) -> String {
+pub fn templatize(k: &str, wild: u8, multi: usize, src: &mut Src) -> String {
     if !k.contains("pub") {
         return k.to_string();
     }
